@@ -30,6 +30,7 @@ class Verifier(ExecMixin, Engine):
                     self.type_fact(st, sv)
                 if isinstance(t, ListT):
                     st.assume(self.list_len(st, sv) >= 0)
+                self.coll_fact(st, t, z)
         for n, t in c.ghost.items():
             z = z3.Const('gh!' + n, sort_of(t))
             ctx.bound[n] = SV(t, z)
